@@ -11,13 +11,14 @@
 EXTENDS LogBridge, Json, IOUtils
 
 Rec == ndJsonDeserialize(IOEnv.TRACE)
-VARIABLES l, bad, cur, ign
-tvars == <<lvars, l, bad, cur, ign>>
+VARIABLES l, bad, cur, ign, always      \* always: the build under test has tracing's `log-always` (records are emitted whatever was installed)
+tvars == <<lvars, l, bad, cur, ign, always>>
 MODULE_TARGET == "logbridge::corpus"
 
 SiteOk(r) ==
-  LET exp == IF ever THEN << >> ELSE ExpectedRecords(r.decl, MODULE_TARGET) IN
+  LET exp == IF ever /\ ~always THEN << >> ELSE ExpectedRecords(r.decl, MODULE_TARGET) IN
   /\ ~("panic" \in DOMAIN r)
+  /\ \A i \in DOMAIN r.evals : r.evals[i] <= 1                 \* no value expression is evaluated twice (once for log, once for the collector)
   /\ Len(r.records) = Len(exp)
   /\ \A i \in 1..Len(exp) :
        /\ r.records[i].level = exp[i].level
@@ -41,26 +42,26 @@ RecordOk(r) ==
             /\ \E i \in DOMAIN e.fields : e.fields[i].name = "message" /\ e.fields[i].v = r.rec.msg
             /\ Cardinality({i \in DOMAIN e.fields : e.fields[i].name = "message"}) = 1
 
-TraceInit == LInit /\ l = 0 /\ bad = << >> /\ cur = NoCollector /\ ign = {}
+TraceInit == LInit /\ l = 0 /\ bad = << >> /\ cur = NoCollector /\ ign = {} /\ always = FALSE
 Flag(ok) == bad' = (IF ok THEN bad ELSE Append(bad, l + 1))
 TraceNext ==
   /\ l < Len(Rec)
   /\ l' = l + 1
   /\ LET r == Rec[l + 1] IN
        CASE r.ev = "reset" -> /\ ever' = FALSE /\ exists' = FALSE /\ scoped' = 0 /\ global' = FALSE
-                              /\ cur' = NoCollector /\ ign' = {} /\ UNCHANGED bad
+                              /\ cur' = NoCollector /\ ign' = {} /\ always' = r.always /\ UNCHANGED bad
          [] r.ev = "t2l" ->
-              /\ UNCHANGED <<cur, ign>>
+              /\ UNCHANGED <<cur, ign, always>>
               /\ (CASE r.op = "site"       -> Emit /\ Flag(SiteOk(r) /\ r.has_been_set = ever)
                     [] r.op = "scoped_on"  -> ScopedOn /\ Flag(r.has_been_set /\ Len(r.records) = 0)
                     [] r.op = "scoped_off" -> ScopedOff /\ Flag(r.has_been_set /\ Len(r.records) = 0)
                     [] r.op = "global"     -> Global /\ Flag(r.has_been_set /\ Len(r.records) = 0))
          [] r.ev = "round" -> /\ cur' = (IF r.installed THEN [cap |-> r.collector.cap, prefix |-> r.collector.prefix, hint |-> r.collector.hint, inen |-> r.collector.inen] ELSE NoCollector)
                               /\ ign' = {r.ignore[i] : i \in DOMAIN r.ignore}
-                              /\ UNCHANGED <<lvars, bad>>
-         [] r.ev = "l2t" -> Flag(RecordOk(r)) /\ UNCHANGED <<lvars, cur, ign>>
-         [] r.ev = "levels" -> Flag(LevelMapOk(r.rows) /\ Len(r.rows) = 11) /\ UNCHANGED <<lvars, cur, ign>>
-         [] r.ev = "crash" -> Flag(FALSE) /\ UNCHANGED <<lvars, cur, ign>>
+                              /\ UNCHANGED <<lvars, bad, always>>
+         [] r.ev = "l2t" -> Flag(RecordOk(r)) /\ UNCHANGED <<lvars, cur, ign, always>>
+         [] r.ev = "levels" -> Flag(LevelMapOk(r.rows) /\ Len(r.rows) = 11) /\ UNCHANGED <<lvars, cur, ign, always>>
+         [] r.ev = "crash" -> Flag(FALSE) /\ UNCHANGED <<lvars, cur, ign, always>>
 TraceSpec == TraceInit /\ [][TraceNext]_tvars
 Report == l = Len(Rec) => PrintT("@@BAD " \o ToJson(bad))
 Consumed == IF TLCGet("stats").diameter = Len(Rec) + 1 THEN TRUE
